@@ -241,7 +241,8 @@ def build_harness():
     os.makedirs(os.path.join(BUILD, "bin"), exist_ok=True)
     shutil.copy(os.path.join(REPO, "go.sum"), os.path.join(HARNESS, "go.sum"))
     out = os.path.join(BUILD, "bin", "harness")
-    p = subprocess.run(["go", "build", "-tags", "verif", "-o", out, "./cmd/harness"],
+    cover = ["-cover", "-coverpkg=github.com/tidwall/geojson/...,verif/harness/..."] if os.environ.get("VERIF_COVER") else []
+    p = subprocess.run(["go", "build", "-tags", "verif"] + cover + ["-o", out, "./cmd/harness"],
                        cwd=HARNESS, env=GOENV, capture_output=True, text=True)
     if p.returncode != 0:
         raise Inconclusive("harness build failed (does /repo compile?):\n" + p.stdout + p.stderr)
